@@ -20,6 +20,7 @@ ITEMS = {
     "inline_named": "struct Pk { struct Payload { uint8 x; } body; struct Trailer { uint8 y; } t[2]; uint8 z; };",
     "anon_member": "struct D { struct { uint8 y; }; uint8 z; };",
     "anon_array": "struct E_ { struct { uint8 x; } arr[2]; };",
+    "anon_nested_containers": "struct NC { struct { uint8 x; } grid[2][3]; struct { uint8 y; } *slots[4]; union { uint8 z; uint16 zz; } **indirect; struct inl_nc { uint8 q; } *inl[2][2]; };",
     "union_in_struct": "struct F { union { uint8 u; uint16 v; } un; union { uint8 s; uint8 t; }; };",
     "bits": "struct G { uint8 a : 4; uint8 b : 4; };",
     "ptrs": "struct H { uint8 *p; char *s; H *selfp; void *v; uint8 **pp; struct { uint8 x; } *anonp; };",
@@ -107,12 +108,14 @@ def _same_shape(t, e):
     return expect_hint(t) == e
 
 
-def check(text, extra=None, legacy=False):
+def check(text, extra=None, legacy=False, pre=None):
     """-> list of (kind, detail)"""
     from dissect.cstruct import cstruct
     from dissect.cstruct.tools.stubgen import generate_cstruct_stub
 
     cs = cstruct()
+    if pre:
+        pre(cs)
     cs.load(text, **({"deftype": cstruct.DEF_LEGACY} if legacy else {}))
     if extra:
         extra(cs)
@@ -313,6 +316,7 @@ LEGACY = {
     "flag": "flag LF {\n X,\n Y\n};\n",
     "consts": "#define LVERSION 2\n#define LNAME \"x\"\n",
     "scalar_typedef": "typedef uint16 LWORD;\n",
+    "fwd_typedef": "typedef LATERL FWDL;\nstruct LATERL {\n uint8 a;\n};\n",
     "user": "struct USER {\n _SECTION first;\n SECTION second;\n VI v[2];\n LE e;\n LWORD w;\n};\n",
 }
 FILE_CORE = ["struct", "nested_named", "inline_named", "anon_member", "enum", "typedef_struct", "typedef_anon_struct2", "typedef_array", "consts", "union_in_struct", "anon_enum", "flag", "anon_flag", "arrays", "ptrs"]
@@ -362,6 +366,21 @@ def special(tier) -> JobResult:
         "alias-of-pointer-typedef": ("typedef uint8 *bptr; typedef bptr bptr2; struct O { bptr2 a; };", None),
         "pointer-to-anon-struct": ("struct H { struct { uint8 x; } *p; };", None),
     }
+    # aliases by NAME that are registered before their target exists (the reference is resolved lazily)
+    pres = {
+        "add_type-forward-string-alias": ("struct Later { uint8 a; uint16 b; };\nstruct UsesFwd { Later l; };", lambda cs: cs.add_type("fwd", "Later")),
+        "add_type-forward-string-alias-of-enum": ("enum LaterE : uint8 { LA = 1 };", lambda cs: cs.add_type("fwde", "LaterE")),
+    }
+    for name, (text, pre) in pres.items():
+        res.evaluations += 1
+        res.states += 1
+        res.nontrivial += 1
+        try:
+            iss = check(text, pre=pre)
+        except Exception as e:  # noqa: BLE001
+            iss = [("load:raises", f"{impl.exc_sig(e)} {e!r}")]
+        for kind, d in iss:
+            res.violations.append(Violation(kind, f"special:{name}|{kind}", {"special": name}, f"{name} ({text!r}): {kind}: {d}", {"special": name}))
     for name, (text, extra) in cases.items():
         res.evaluations += 1
         res.states += 1
